@@ -6,32 +6,40 @@
 /* tail || 0x80 || 0x00.. || bit length of the WHOLE message, where the whole message has
  * total_hi * 2^64 + total_lo bytes and `tail` are its last taillen (< A_BLK + ...) bytes starting at a block boundary.
  * Returns number of bytes written (a multiple of A_BLK). */
-static size_t v_pad_tail(uint8_t *dst, const uint8_t *tail, size_t taillen, uint64_t total_lo, uint64_t total_hi) {
-	size_t n = 0;
+static size_t v_pad_tail(uint8_t *dst, size_t cap, const uint8_t *tail, size_t taillen, uint64_t total_lo, uint64_t total_hi) {
 	uint8_t lenfield[16];
 	/* bit length = byte length * 8 as a 128-bit number (hi:lo) */
 	uint64_t bits_lo = total_lo << 3;
 	uint64_t bits_hi = (total_hi << 3) | (total_lo >> 61);
+	/* smallest multiple of the block size that holds tail, the 0x80 byte and the length field */
+	size_t n = ((taillen + 1 + A_LENB + A_BLK - 1) / A_BLK) * A_BLK;
 
-	for (size_t i = 0; i < taillen; i++)
-		dst[n++] = tail[i];
-	dst[n++] = 0x80;
-	while ((n % A_BLK) != (A_BLK - A_LENB))
-		dst[n++] = 0x00;
 	for (size_t i = 0; i < 8; i++) {	/* lenfield: big endian 128 bit */
 		lenfield[i] = (uint8_t)(bits_hi >> (56 - 8 * i));
 		lenfield[8 + i] = (uint8_t)(bits_lo >> (56 - 8 * i));
 	}
-	for (size_t i = 0; i < A_LENB; i++) {
+	/* loops have constant bounds (taillen may be symbolic in step.c): taillen < A_BLK + A_BLK */
+	for (size_t i = 0; i < cap; i++) {	/* cap: size of dst, constant */
+		if (i >= n)
+			break;
+		if (i < taillen)
+			dst[i] = tail[i];
+		else if (i == taillen)
+			dst[i] = 0x80;
+		else if (i < n - A_LENB)
+			dst[i] = 0x00;
+		else {
+			size_t j = i - (n - A_LENB);	/* 0 .. A_LENB-1 */
 #if A_BE
-		dst[n++] = lenfield[16 - A_LENB + i];	/* most significant byte first */
+			dst[i] = lenfield[16 - A_LENB + j];	/* most significant byte first */
 #else
-		dst[n++] = lenfield[15 - i];		/* least significant byte first (MD5) */
+			dst[i] = lenfield[15 - j];		/* least significant byte first (MD5) */
 #endif
+		}
 	}
 	return (n);
 }
-#define v_pad(dst, msg, len, unused)	v_pad_tail((dst), (msg), (len), (uint64_t)(len), 0)
+#define v_pad(dst, cap, msg, len)	v_pad_tail((dst), (cap), (msg), (len), (uint64_t)(len), 0)
 
 /* calls [first, first + n) of the transform log processed exactly the n blocks at `blocks`, chained correctly;
  * iv != 0: call `first` starts a new hash computation and must see the standard initial value. */
@@ -39,7 +47,9 @@ static void v_check_seg(const uint8_t *blocks, size_t n, size_t first, const a_w
 	V_ASSERT(v_ncalls >= first + n, "transform called at least once per block of pad(msg)");
 	if (v_ncalls < first + n)
 		return;
-	for (size_t k = 0; k < n; k++) {
+	for (size_t k = 0; k < V_MAXCALLS; k++) {	/* constant bound: n may be symbolic in step.c */
+		if (k >= n)
+			break;
 		for (size_t i = 0; i < A_BLK; i++)
 			V_ASSERT(v_log_blk[first + k][i] == blocks[k * A_BLK + i], "block bytes given to the transform == pad(msg) block");
 		for (size_t i = 0; i < A_STW; i++) {
